@@ -710,6 +710,8 @@ def run(prog, rep, tier):
     ns, nt = check_crash(prog, rep)
     check_resume_order(prog, rep)
     check_resume_keys(prog, rep)
+    if check_resume_sequential(prog, rep) < 1:
+        raise AnalysisError('RESUME-sequential: no **mapping passed to run_seq_simulations')
     rep.floor('CRASH-typestate', 8)
     rep.floor('RESUME-order', 2)
     rep.floor('RESUME-keys', 3)
@@ -727,3 +729,120 @@ def run(prog, rep, tier):
         'of Simulation.save_results; resume protocol decided by CFG order rules and key-table '
         'agreement.' % (ns, nt),
         proof={'states': ns, 'transitions': nt, 'exhaustive': True})
+
+
+# ------------------------------------------------------------------ resuming a sequential simulation
+def _mapping_facts(nf, call, name, depth=0):
+    """(keys known to be in the mapping `name` at `call`, keys known to be removed):
+    guards `'K' in name`, derivation `name = {k: v for k, v in SRC.items() if k != 'K'}` or
+    `name = dict(SRC)` / `SRC.copy()`, later `name.pop('K', ..)` / `del name['K']`"""
+    known, removed = set(), set()
+    for text, pol, e in guards_of(nf, call):
+        if pol and isinstance(e, ast.Compare) and len(e.ops) == 1 and isinstance(
+                e.ops[0], ast.In) and isinstance(e.left, ast.Constant) and \
+                unparse(e.comparators[0]) == name:
+            known.add(e.left.value)
+    src = None
+    for st in stmts_of(nf):
+        if st.lineno >= call.lineno:
+            continue
+        if isinstance(st, ast.Assign) and len(st.targets) == 1 and unparse(st.targets[0]) == name:
+            v = st.value
+            src, removed = None, set()
+            if isinstance(v, ast.DictComp) and len(v.generators) == 1 and isinstance(
+                    v.generators[0].iter, ast.Call) and isinstance(
+                        v.generators[0].iter.func, ast.Attribute) and \
+                    v.generators[0].iter.func.attr == 'items':
+                src = unparse(v.generators[0].iter.func.value)
+                for c in v.generators[0].ifs:
+                    for x in ast.walk(c):
+                        if isinstance(x, ast.Compare) and isinstance(x.ops[0], (ast.NotEq, ast.NotIn)):
+                            for y in ast.walk(x):
+                                if isinstance(y, ast.Constant) and isinstance(y.value, str):
+                                    removed.add(y.value)
+            elif isinstance(v, ast.Call) and call_name(v) == 'dict' and len(v.args) == 1:
+                src = unparse(v.args[0])
+            elif isinstance(v, ast.Call) and isinstance(v.func, ast.Attribute) and \
+                    v.func.attr == 'copy' and not v.args:
+                src = unparse(v.func.value)
+        for c in ast.walk(st) if not isinstance(st, (ast.If, ast.For, ast.While, ast.With)) else []:
+            if isinstance(c, ast.Call) and isinstance(c.func, ast.Attribute) and \
+                    c.func.attr == 'pop' and unparse(c.func.value) == name and c.args and \
+                    isinstance(c.args[0], ast.Constant):
+                removed.add(c.args[0].value)
+        if isinstance(st, ast.Delete):
+            for t in st.targets:
+                if isinstance(t, ast.Subscript) and unparse(t.value) == name and isinstance(
+                        t.slice, ast.Constant):
+                    removed.add(t.slice.value)
+    if src is not None and depth < 2:
+        k2, r2 = _mapping_facts(nf, call, src, depth + 1)
+        known |= k2
+        removed_src = r2
+        known -= removed_src
+    return known - removed, removed
+
+
+def check_resume_sequential(prog, rep):
+    """RESUME-sequential: resume_from_checkpoint hands the options of the resumed simulation on to
+    run_seq_simulations; keys known to be present in the `**mapping` must not collide with
+    explicitly bound parameters (TypeError: the remaining simulations never run), and the file
+    name generated for the resumed simulation must not be forwarded when it was generated from
+    output_filename_params (the remaining simulations would derive their names from it)."""
+    m = prog.module(SIM)
+    f = m.functions.get('resume_from_checkpoint')
+    g = m.functions.get('run_seq_simulations')
+    if f is None or g is None:
+        raise AnalysisError('resume_from_checkpoint / run_seq_simulations not found')
+    rep.unit(m)
+    nf = inline_temps(f, keep=('options', 'simulation_params'))
+    calls = [c for c in ast.walk(nf) if isinstance(c, ast.Call) and
+             call_name(c) == 'run_seq_simulations']
+    if len(calls) != 1:
+        raise AnalysisError('resume_from_checkpoint: call of run_seq_simulations not found')
+    c = calls[0]
+    a = g.args
+    explicit = set()
+    pos = [x.arg for x in a.posonlyargs + a.args]
+    for p, v in zip(pos, c.args):
+        explicit.add(p)
+    for k in c.keywords:
+        if k.arg is not None:
+            explicit.add(k.arg)
+    stars = [unparse(k.value) for k in c.keywords if k.arg is None]
+    n = 0
+    for name in stars:
+        known, removed = _mapping_facts(nf, c, name)
+        n += 1
+        rep.instance('RESUME-sequential', {'call': key_text(c)[:80], 'mapping': name,
+                                           'known_keys': sorted(known), 'removed': sorted(removed),
+                                           'explicit': sorted(explicit)})
+        for k in sorted(known & explicit):
+            rep.violation('RESUME-sequential', m, 'resume_from_checkpoint', 'duplicate:' + k,
+                          '`%s` passes `%s` explicitly and again through `**%s`, which is known '
+                          'to contain that key here: TypeError (multiple values), the remaining '
+                          'simulations of an interrupted sequence are never run' %
+                          (unparse(c)[:60], k, name), c.lineno)
+        # generated file name of the resumed simulation
+        guarded_pop = False
+        for st in stmts_of(nf):
+            for x in ast.walk(st) if not isinstance(st, (ast.If, ast.For, ast.While, ast.With)) \
+                    else []:
+                if isinstance(x, ast.Call) and isinstance(x.func, ast.Attribute) and \
+                        x.func.attr == 'pop' and x.args and isinstance(x.args[0], ast.Constant) \
+                        and x.args[0].value == 'output_filename' and \
+                        unparse(x.func.value) == name:
+                    guarded_pop = any('output_filename_params' in t for t, _, _ in guards_of(nf, x))
+            if isinstance(st, ast.Delete) and "['output_filename']" in unparse(st) and \
+                    any('output_filename_params' in t for t, _, _ in guards_of(nf, st)):
+                guarded_pop = True
+        rep.instance('RESUME-sequential', {'mapping': name, 'generated_filename_dropped':
+                                           guarded_pop})
+        if not guarded_pop and 'output_filename' not in removed:
+            rep.violation('RESUME-sequential', m, 'resume_from_checkpoint', 'filename-forwarded',
+                          'the options of the resumed simulation contain the output_filename '
+                          'generated for it (get_output_filename stores it); forwarded to '
+                          'run_seq_simulations it becomes the prefix of the remaining '
+                          'simulations: their results land in other files than in the '
+                          'uninterrupted run', c.lineno)
+    return n
